@@ -12,8 +12,9 @@ contents while children have already been changed.
 Rule (linear walk in source order, both branches of a conditional): state
 attributes are the attributes `clear()` / `__setstate__` of the class (or a
 base) assign on self.  A local is an alias while it is bound to
-`self.<state attr>`; it becomes stale at the next call into the comparing layer
-(names below, resolved through local method aliases); a mutation through a
+`self.<state attr>`; it becomes stale at the next call of a function from which
+a key comparison is reachable (closure by name over _base.py, through local
+method aliases; `minKey()` / `maxKey()` without a bound do not compare); a mutation through a
 stale alias (`alias.insert/append/pop/extend/remove/clear/sort`,
 `alias[..] = ..`, `alias[..].attr = ..`, `del alias[..]`) is reported.
 """
@@ -23,10 +24,43 @@ from ..common import AnalysisError, SRC
 from .. import pyfront
 
 REL = SRC + "/_base.py"
-COMPARING = ("_search", "_findbucket", "_set", "_del", "compare", "_range", "minKey", "maxKey",
-             "_to_key", "_to_value", "_grow", "_split", "_split_root", "_deleteNextBucket")
+# seeds of the comparing layer; closed under "calls a comparing function"
+# over the functions of _base.py (by name) in comparing_names()
+COMPARE_SEEDS = ("compare", "_to_key", "_to_value", "sorted", "sort")
+# names too generic to be resolved by name (list.insert, dict.get, ...)
+UNRESOLVED = ("insert", "append", "pop", "get", "update", "add", "remove", "clear",
+              "extend", "index", "count", "keys", "values", "items", "next", "__init__")
 MUTATORS = ("insert", "append", "pop", "extend", "remove", "clear", "sort", "reverse")
 NODE_CLASSES = ("_BucketBase", "Bucket", "Set", "_Tree", "Tree", "TreeSet")
+
+
+def comparing_names(tree):
+    """Names of functions of _base.py from which a key comparison is
+    reachable (calls resolved by name; generic container method names are not
+    followed)."""
+    defs = {}
+    for n in ast.walk(tree):
+        if isinstance(n, ast.FunctionDef):
+            defs.setdefault(n.name, []).append(n)
+    comparing = set(COMPARE_SEEDS)
+    changed = True
+    while changed:
+        changed = False
+        for name, fns in defs.items():
+            if name in comparing or name in UNRESOLVED:
+                continue
+            for fn in fns:
+                for c in ast.walk(fn):
+                    if isinstance(c, ast.Call):
+                        cn = c.func.attr if isinstance(c.func, ast.Attribute) else \
+                            c.func.id if isinstance(c.func, ast.Name) else None
+                        if cn in comparing:
+                            comparing.add(name)
+                            changed = True
+                            break
+                if name in comparing:
+                    break
+    return comparing
 
 
 def state_attrs(tree):
@@ -51,13 +85,15 @@ def state_attrs(tree):
 
 
 class _Walk(object):
-    def __init__(self, fn, attrs):
+    def __init__(self, fn, attrs, comparing):
         self.fn = fn
         self.attrs = attrs
+        self.comparing = comparing
         self.alias = {}      # local -> (attr, stale: bool)
         self.method_alias = {}
         self.hits = []
         self.events = 0
+        self.bindings = 0
 
     def _call_name(self, c):
         if isinstance(c.func, ast.Attribute):
@@ -79,7 +115,8 @@ class _Walk(object):
                     if stale:
                         self.hits.append((n, n.func.value.id, attr, "%s.%s(...)" % (n.func.value.id, n.func.attr)))
         for n in ast.walk(e):
-            if isinstance(n, ast.Call) and self._call_name(n) in COMPARING:
+            if isinstance(n, ast.Call) and self._call_name(n) in self.comparing and not (
+                    self._call_name(n) in ("minKey", "maxKey") and not n.args and not n.keywords):
                 for k in list(self.alias):
                     self.alias[k] = (self.alias[k][0], True)
                 break
@@ -93,6 +130,7 @@ class _Walk(object):
                     if isinstance(v, ast.Attribute) and pyfront.unparse(v.value) == "self":
                         if v.attr in self.attrs:
                             self.alias[t.id] = (v.attr, False)
+                            self.bindings += 1
                             continue
                         self.method_alias[t.id] = v.attr
                     self.alias.pop(t.id, None)
@@ -158,6 +196,9 @@ class _Walk(object):
 def check(res, rule="PY-STALE-ALIAS"):
     tree = pyfront.base_py()
     attrs = state_attrs(tree)
+    comparing = comparing_names(tree)
+    if not {"_search", "_findbucket", "_set", "_del"} <= comparing:
+        raise AnalysisError("comparing layer of _base.py not recognised (%s)" % sorted(comparing)[:12])
     if not {"_keys", "_data"} <= attrs:
         raise AnalysisError("anchor vanished: state attributes of the Python nodes (%s)" % sorted(attrs))
     cls = pyfront.classes(tree)
@@ -170,11 +211,11 @@ def check(res, rule="PY-STALE-ALIAS"):
         for fn in c.body:
             if not isinstance(fn, ast.FunctionDef) or fn.name in ("clear", "__setstate__", "__getstate__"):
                 continue
-            w = _Walk(fn, attrs)
+            w = _Walk(fn, attrs, comparing)
             for st in fn.body:
                 w.stmt(st)
             n += w.events
-            aliases += len(w.alias)
+            aliases += w.bindings
             seen = set()
             for node, name, attr, what in w.hits:
                 key = (cname, fn.name, what)
@@ -191,7 +232,8 @@ def check(res, rule="PY-STALE-ALIAS"):
                            "this write goes to the discarded list (the C type "
                            "pins the node for the duration of the call)" % (name, attr, attr),
                     path=[]))
-    res.count(rule, n)
-    res.floor("writes through local aliases of node state lists (Python)", n, 3)
+    res.count(rule, n + aliases)
+    res.floor("local aliases of node state lists (Python)", aliases, 12)
     res.extra["python_state_attributes"] = sorted(attrs)
+    res.extra["python_comparing_functions"] = sorted(comparing)
     return n
